@@ -38,10 +38,16 @@ def run(chk):
              "leaving -> Add(ip); passing through -> first crossing (taken from the other end of the segment) starts a piece, then Add(ip)")
     chk.rule("START.location", "the location RectClipLines64::ExecuteInternal starts its scan with is the truth about the path's first vertex (its region; on the "
              "boundary: Inside iff the next vertex off the boundary is inside, else the side; the whole path is copied only when no vertex is off the boundary) - 729 scenarios")
+    chk.rule("AXIS.homogeneous", "GetSegmentIntersectPt (default and CLIPPER2_HI_PRECISION variants): x quantities are only added to, compared with and stored "
+             "into x quantities, y with y (the high-precision variant's local origin is taken per axis; a wrong one costs precision, not algebra)")
     chk.rule("SCAN.start", "the segment scan of ExecuteInternal starts at segment 1 on every path (constant propagation of the cursor: the pre-scan for a "
              "vertex off the boundary must not leave it advanced)")
     chk.rule("LOOP", "nothing written while clipping one polyline is read while clipping the next")
     chk.rule("CLEAN", "the scratch containers are empty again at every normal exit of RectClipLines64::Execute")
+    from ..engines import e14_poly as _e14a
+    for _cfg in ("base", "hi"):
+        if _e14a.rule_axis(AstDB(_cfg), chk, _cfg) < 1:
+            raise AnalysisBroken("AXIS.homogeneous: GetSegmentIntersectPt not found (configuration %s)" % _cfg)
     for cfg in cfgs:
         db = AstDB(cfg)
         e3.location_table(db, chk, cfg)
